@@ -698,10 +698,19 @@ class Unit:
         lo, hi = f['open'] + 1, f['close']
         body_m = s.masked[lo:hi]
         # tracked parameters must be immutable in the real function
+        rebinds = []
         for t in track:
             for m in re.finditer(r'\b%s\b\s*(=(?![=>])|\+=|-=)' % t, body_m):
                 raise ExtractError('%s: tracked parameter %s is assigned in %s; the slice would be unsound' % (where, t, name))
             for m in re.finditer(r'\blet\s+(?:mut\s+)?%s\b' % t, body_m):
+                # a top-level `let T = <simple expression>;` is part of the slice language: kept verbatim, in order
+                k_ = lo + m.start()
+                semi = s.masked.find(';', k_)
+                stmt = re.sub(r'\s+', ' ', s.text[k_:semi + 1])
+                mm_ = re.match(r'let (?:mut )?%s\s*(?::\s*\w+\s*)?=\s*(\w+(?:\s*[+-]\s*\d+)?|\d+|true|false);$' % t, stmt)
+                if mm_ and s._depth(lo, k_) == 0 and s.masked[lo:k_].count('(') == s.masked[lo:k_].count(')'):
+                    rebinds.append((k_, stmt))
+                    continue
                 raise ExtractError('%s: tracked parameter %s is shadowed in %s' % (where, t, name))
             for c in s.closures_in(lo, hi):
                 if re.search(r'\b%s\b' % t, s.masked[c['start']:c['params_end']]):
@@ -730,6 +739,8 @@ class Unit:
                 if len(args) != len(info['params']):
                     raise ExtractError('%s: call to %s has %d args, signature has %d' % (where, cname, len(args), len(info['params'])))
                 events.append((k, 'call', (cname, dict(zip(info['params'], args)), c + 1)))
+        for k_, stmt in rebinds:
+            events.append((k_, 'rebind', stmt))
         if okfrom is not None:
             bound = set()
             for cname in okfrom:
@@ -752,6 +763,9 @@ class Unit:
             nested = depth != 0 or pre.count('(') != pre.count(')')
             ln = s.line_of(k)
             org = ('repo', s.path, ln)
+            if kind == 'rebind':
+                self.lines.append(Line(payload, org, name + '_slice'))
+                continue
             if kind == 'okfrom':
                 ok, txt = payload
                 self.lines.append(Line('    if vx_nondet() { assert(%s); }   // %s' % ('true' if ok else 'false', txt.replace('\n', ' ')),
